@@ -167,7 +167,9 @@ def run(chk, repo, tier):
             if isinstance(n, ast.With):
                 for it in n.items:
                     c = it.context_expr
-                    if isinstance(c, ast.Call) and isinstance(c.func, ast.Attribute) and c.func.attr == lockmeth:
+                    # (the helper may have been renamed: its present name, sa/renames.py)
+                    cur = getattr(dbc.methods.get(lockmeth), 'name', lockmeth)
+                    if isinstance(c, ast.Call) and isinstance(c.func, ast.Attribute) and c.func.attr in (lockmeth, cur):
                         return n
                     # the lock taken directly: `with path_lock(.., shared=False)` is the write lock
                     if isinstance(c, ast.Call) and call_name(c) == 'path_lock' \
